@@ -57,11 +57,14 @@ pub fn random_hits(m: &Model, rng: &mut Rng, occ: &[bool; 256], nh: usize, len: 
             }
         }
         let col = wire_to_column(wire);
-        let row0 = 3 + rng.usize(570);
-        let z_off = rng.range(-0.5, 0.5);
+        // one hit in eight sits on the first / last usable pad rows (centre row 1 or 574, 3-row cluster)
+        let edge = rng.below(8) == 0;
+        let row0 = if edge { *rng.pick(&[1usize, 2, 573, 574]) } else { 3 + rng.usize(570) };
+        let z_off = if edge { rng.range(-0.2, 0.2) } else { rng.range(-0.5, 0.5) };
         let sigma = rng.range(0.7, 1.5);
         let pa = a * rng.range(3.0, 8.0);
-        for dr in -3i32..=3 {
+        let span = if edge { 1 } else { 3 };
+        for dr in -span..=span {
             let row = row0 as i32 + dr;
             if !(0..576).contains(&row) {
                 continue;
